@@ -4,7 +4,7 @@
    Neighbour tables:  N lists, each  len v_1 .. v_len  (decimal).
      LLE  N shift tshift <nbrs> <kern N*N>                 -> OK <N*N rationals> | OOB s i n | SOLVEFAIL i
      LTSA N d rsk shift <nbrs> <E: N blocks of k*k>        -> OK <N*N> | OOB s i n
-     HLLE shipped N d <nbrs> <V: N blocks of k*d>          -> OK <N*N> | OOB s i n | DEGENERATE i
+     HLLE shipped N d <nbrs> <V: N blocks of k*d>          -> OK <N*N> | OOB s i n | SOLVEFAIL i  (Gram-Schmidt column with u.u = 0)
      EIGC N tol <nbrs> <kern N*N> <E: N blocks k*k> <lam: N blocks k>   -> OK b_0 .. b_{N-1}   (1 = contract holds)
      EMB  N d tol centred opt <M N*N> <Y N*d>              -> V <0|1|2|3>
      MCHK N tol mu <M N*N>                                 -> V <0|1|2>   (1 not symmetric, 2 M 1 <> mu 1)
@@ -134,13 +134,7 @@ let () =
              let k = match nb with [] -> 0 | l :: _ -> List.length l in
              let blocks = Array.of_list (next_list n (fun () -> c08_mof (next_mat k d))) in
              let v i = let j = int_of_nat i in if j < Array.length blocks then blocks.(j) else fun _ _ -> q_of_token "0" in
-             let deg = ref (-1) in
-             if hlle_first_oob shipped (nat_of_int d) = None && d <= k then
-               Array.iteri
-                 (fun i b -> if !deg < 0 && c08_hlle_degenerate shipped (nat_of_int k) (nat_of_int d) b then deg := i)
-                 blocks;
-             if !deg >= 0 then Printf.printf "DEGENERATE %d\n%!" !deg
-             else print_result n (c08_hlle_run shipped (nat_of_int n) (nat_of_int d) nb v)
+             print_result n (c08_hlle_run shipped (nat_of_int n) (nat_of_int d) nb v)
            | "EIGC" ->
              let n = next_int () in
              let tol = next_q () in
